@@ -15,7 +15,10 @@ KINDS = ["read_all", "write1", "write2", "fail_body", "fail_encoder", "fail_flus
          # a record under the EMPTY key (a legal key) - once per library, afterwards an ordinary write
          "write_emptykey",
          # not a session of a live handle at all: some OTHER process was killed in the middle of an append - the file ends in a torn record
-         "killed_mid_append"]
+         "killed_mid_append",
+         # a small-buffer handle: a backend write fails in a flush in the MIDDLE of the session, the caller catches that error and carries
+         # on; the session ends normally - the records whose put had returned before are stored
+         "caught_flush_error"]
 TIMEOUT = 5.0
 
 
@@ -101,6 +104,16 @@ def run_session(c, kind: str, keys: list[str], vals: list[bytes]) -> dict:
                     raise Boom("reader body fails")
                 if kind == "read_fail_interrupt":
                     raise KeyboardInterrupt("injected")
+        elif kind == "caught_flush_error":
+            c2 = make_handle(str(be._path), False, 64)
+            with c2.writing(timeout=TIMEOUT):
+                c2[BADKEY] = b"never stored"                            # queued (the buffer is not full yet)
+                c2[keys[0]] = vals[0]; res["put_ok"].append(keys[0])    # queued behind it
+                try:
+                    c2[keys[1]] = vals[1]                               # 9 kB: the buffer overflows, the flush meets the bad record
+                    res["put_ok"].append(keys[1])
+                except InjectedIOError:
+                    pass
         else:
             if kind == "fail_end_write":
                 real = be.end_write
@@ -112,7 +125,9 @@ def run_session(c, kind: str, keys: list[str], vals: list[bytes]) -> dict:
                 be.end_write = end_write
                 restore.append(("end_write", real))
             with c.writing(timeout=TIMEOUT):
-                if kind == "write_emptykey":
+                if kind == "caught_flush_error":
+                    pass
+                elif kind == "write_emptykey":
                     k_ = "" if "" not in c.keys() else keys[0]
                     c[k_] = vals[0]; res["put_ok"].append(k_)
                     res["put_map"] = {k_: vals[0].hex()}
